@@ -98,6 +98,8 @@ pub fn gen_transport(r: &mut Rng) -> Vec<Tree> {
                 ops.push(l(vec![n(225u8)]));
                 ops.push(l(vec![n(227u8)]));
                 ops.push(l(vec![n(228u8), n(k)]));
+                ops.push(l(vec![n(233u8)]));
+                ops.push(l(vec![n(234u8), n(k)]));
             }
             12 => {
                 let len = *r.pick(&[0usize, 17, 18, 30, 326, 1078, 1400]);
@@ -157,8 +159,10 @@ pub fn gen_transport(r: &mut Rng) -> Vec<Tree> {
         ops.push(l(vec![n(225u8)]));
     }
     ops.push(l(vec![n(227u8)]));
+    ops.push(l(vec![n(233u8)]));
     for k in 0..nclients {
         ops.push(l(vec![n(228u8), n(k)]));
+        ops.push(l(vec![n(234u8), n(k)]));
     }
     ops
 }
